@@ -175,7 +175,8 @@ class World(object):
             return _digest(m, False)
         if k == 'decode_bad':
             raw = bufrgen.apply_fault(bytes.fromhex(msgs[op['m']]['hex']), op['fault'])
-            m = self.clients[op['c']]['dec'].process(raw, ignore_value_expectation=op.get('ive', False))
+            m = self.clients[op['c']]['dec'].process(raw, ignore_value_expectation=op.get('ive', False),
+                                                     wire_template_data=op.get('wire', True))
             return _digest(m)
         if k in ('render', 'query', 'mdquery', 'script', 'wire', 'subset_encode'):
             m = self.handles.get(op['h'])
@@ -608,6 +609,14 @@ def gen_plan(family, seed, msgs, tier='quick', index=None):
         last = len(ops) - 1
         ops += [{'op': 'encode', 'c': 0, 'm': 0},
                 {'op': 'render', 'h': last, 'fmt': rng.choice(FORMATS)}]
+        # a descriptor list that cannot be turned into a template, met twice in a row, then the good message
+        # again: whatever the failed attempts left in the cache must not be run
+        raw0 = bytes.fromhex(m['hex'])
+        if raw0.find(b'BUFR', 1) < 0:
+            f = streamsim.gen_stream_fault(rng, raw0, ['undef_el', 'undef_seq'])
+            if f is not None:
+                bad = {'op': 'decode_bad', 'c': 0, 'm': 0, 'fault': f, 'ive': False, 'wire': rng.random() < 0.5}
+                ops += [bad, dict(bad), dec(0)]
         return {'engine': 'histsim', 'family': 'c08', 'sub': 'each', 'seed': seed, 'limit': 50,
                 'clients': [{'compiled': cm, 'root': 'bundled'}], 'msgs': [dict(x) for x in group], 'ops': ops}
     io_family = family == 'c13-io'
@@ -750,7 +759,8 @@ def gen_plan(family, seed, msgs, tier='quick', index=None):
                 fault = streamsim.gen_stream_fault(rng, raw, ['stopsig', 'undef_el', 'undef_seq', 'len-', 'len+'])
             if fault is None:
                 continue
-            op = {'op': 'decode_bad', 'c': c, 'm': mi, 'fault': fault, 'ive': rng.random() < max(p_ive, 0.15)}
+            op = {'op': 'decode_bad', 'c': c, 'm': mi, 'fault': fault, 'ive': rng.random() < max(p_ive, 0.15),
+                  'wire': rng.random() < 0.5}
         elif k in ('render', 'query', 'mdquery', 'script', 'wire', 'subset_encode'):
             if not handles:
                 continue
